@@ -12,8 +12,13 @@ package main
 // Everything else (order of Match, monitors, timing, error texts) is ignored.
 
 import (
+	"bufio"
+	"context"
 	"encoding/json"
 	"fmt"
+	"os"
+	"os/exec"
+	"path/filepath"
 	"reflect"
 	"regexp"
 	"sort"
@@ -544,7 +549,7 @@ func c01One(c *Ctx, d c01Case, histTerm string) {
 		fl = append(fl, c01IntLists(fired[i]))
 	}
 	id := c.NewID()
-	term := fmt.Sprintf("mkCase %d [%s] %s %s %s %s [%s] [%s]", id, strings.Join(rules, ";"), c01RxTable(d),
+	term := fmt.Sprintf("mkCase %d [%s] %s %s %s %s [%s] [%s] false", id, strings.Join(rules, ";"), c01RxTable(d),
 		histTerm, c01IntLists(obs.Match), c01Bools(obs.Trig), strings.Join(al, ";"), strings.Join(fl, ";"))
 	c.AddCase(id, term, d, key, nontrivial)
 }
@@ -643,6 +648,428 @@ func c01Sinks(c *Ctx, d c01Case) {
 	if !ok {
 		c.Violate("sink-attributes", "the rules registered for sink declarations do not carry the declared kindmatch / scopematch / statematch / priority / suppresses", d)
 	}
+}
+
+// ---- concurrent stream ------------------------------------------------------------------
+// Many workers, events of mixed kinds in flight at once.  Runs in a child process (the same
+// binary, C01_CONC_CHILD set) so that a Go fatal error of the implementation (concurrent map
+// access ...) ends the child only.  Per case:
+//   (a) RuleIndex.Match called in tight loops from several goroutines on one shared index,
+//       every result compared with the sequential result for the same event
+//   (b) processors with 4 / 8 / 16 workers; every event of the history is added `copies`
+//       times from 4 goroutines with AddEvent (own root monitor, no waiting), then Finish;
+//       per event the distinct observed (monitor returned, actions that ran) variants
+
+type c01Variant struct {
+	Added bool  `json:"added"`
+	Fired []int `json:"fired"`
+	Count int   `json:"count"`
+}
+
+type c01MatchDiff struct {
+	Event int   `json:"event"`
+	Got   []int `json:"got"`
+	Want  []int `json:"want"`
+}
+
+type c01ConcObs struct {
+	Idx        int            `json:"idx"`
+	Status     string         `json:"status"` // ok | hang | seqfail
+	MatchCalls int            `json:"match_calls"`
+	MatchDiffs int            `json:"match_diffs"`
+	MatchDiff  *c01MatchDiff  `json:"match_diff,omitempty"`
+	Variants   [][]c01Variant `json:"variants"` // per event of the history
+	Fired      int            `json:"events_fired"`
+	Hangs      int            `json:"hangs"`
+}
+
+type c01ConcJob struct {
+	Cases     []c01Case `json:"cases"`
+	MatchIter int       `json:"match_iter"`
+	Copies    int       `json:"copies"`
+}
+
+func c01Names(rs []*engine.Rule) []int {
+	names := []int{}
+	for _, r := range rs {
+		names = append(names, c01RuleID(r.Name))
+	}
+	sort.Ints(names)
+	return names
+}
+
+func c01ConcOne(d c01Case, idx, matchIter, copies int) c01ConcObs {
+	obs := c01ConcObs{Idx: idx, Status: "ok"}
+	// (a) shared index
+	idxr := engine.NewRuleIndex()
+	for _, r := range d.Rules {
+		if err := idxr.AddRule(c01GoRule(r, nil)); err != nil {
+			obs.Status = "seqfail"
+			return obs
+		}
+	}
+	var evs []*engine.Event
+	var want []string
+	var wantNames [][]int
+	for _, e := range d.Hist {
+		ge := c01GoEvent(e)
+		res := guarded(3*time.Second, func() (interface{}, error) { return c01Names(idxr.Match(ge)), nil })
+		if res.TimedOut || res.Panicked {
+			obs.Status = "seqfail"
+			return obs
+		}
+		evs = append(evs, ge)
+		wantNames = append(wantNames, res.Val.([]int))
+		want = append(want, fmt.Sprint(res.Val.([]int)))
+	}
+	if len(evs) == 0 {
+		return obs
+	}
+	const G = 8
+	var mu sync.Mutex
+	var wg sync.WaitGroup
+	for g := 0; g < G; g++ {
+		wg.Add(1)
+		go func(g int) {
+			defer wg.Done()
+			diffs := 0
+			var first *c01MatchDiff
+			for it := 0; it < matchIter; it++ {
+				i := (it*(2*g+1) + g) % len(evs)
+				got := c01Names(idxr.Match(evs[i]))
+				if fmt.Sprint(got) != want[i] {
+					diffs++
+					if first == nil {
+						first = &c01MatchDiff{i, got, wantNames[i]}
+					}
+				}
+			}
+			mu.Lock()
+			obs.MatchCalls += matchIter
+			obs.MatchDiffs += diffs
+			if obs.MatchDiff == nil {
+				obs.MatchDiff = first
+			}
+			mu.Unlock()
+		}(g)
+	}
+	wg.Wait()
+
+	// (b) processors
+	type key struct {
+		added bool
+		fired string
+	}
+	seen := make([]map[key]*c01Variant, len(d.Hist))
+	for i := range seen {
+		seen[i] = map[key]*c01Variant{}
+	}
+	for _, w := range []int{4, 8, 16} {
+		for attempt := 0; ; attempt++ {
+			n := len(d.Hist) * copies
+			rec := &c01Recorder{index: map[*engine.Event]int{}, fired: make([][]int, n)}
+			proc := engine.NewProcessor(w)
+			for _, r := range d.Rules {
+				if err := proc.AddRule(c01GoRule(r, rec)); err != nil {
+					obs.Status = "seqfail"
+					return obs
+				}
+			}
+			ges := make([]*engine.Event, n)
+			scopes := make([]*engine.RuleScope, n)
+			for j := 0; j < n; j++ {
+				e := d.Hist[j%len(d.Hist)]
+				ges[j] = c01GoEvent(e)
+				rec.index[ges[j]] = j
+				defs := map[string]bool{}
+				for _, df := range e.Defs {
+					defs[df.Path] = df.Allow
+				}
+				scopes[j] = engine.NewRuleScope(defs)
+			}
+			added := make([]bool, n)
+			proc.Start()
+			res := guarded(20*time.Second, func() (interface{}, error) {
+				var wg sync.WaitGroup
+				const F = 4
+				for f := 0; f < F; f++ {
+					wg.Add(1)
+					go func(f int) {
+						defer wg.Done()
+						for j := f; j < n; j += F {
+							m, _ := proc.AddEvent(ges[j], proc.NewRootMonitor(nil, scopes[j]))
+							added[j] = m != nil
+						}
+					}(f)
+				}
+				wg.Wait()
+				proc.Finish()
+				return nil, nil
+			})
+			if res.TimedOut || res.Panicked {
+				obs.Hangs++
+				if attempt == 2 {
+					obs.Status = "hang"
+					break
+				}
+				continue
+			}
+			rec.mu.Lock()
+			for j := 0; j < n; j++ {
+				f := append([]int{}, rec.fired[j]...)
+				sort.Ints(f)
+				k := key{added[j], fmt.Sprint(f)}
+				if v, ok := seen[j%len(d.Hist)][k]; ok {
+					v.Count++
+				} else {
+					seen[j%len(d.Hist)][k] = &c01Variant{added[j], f, 1}
+				}
+			}
+			rec.mu.Unlock()
+			obs.Fired += n
+			break
+		}
+	}
+	for i := range seen {
+		var vs []c01Variant
+		for _, v := range seen[i] {
+			vs = append(vs, *v)
+		}
+		sort.Slice(vs, func(a, b int) bool { return vs[a].Count > vs[b].Count })
+		obs.Variants = append(obs.Variants, vs)
+	}
+	return obs
+}
+
+// child: C01_CONC_CHILD = job file, C01_CONC_START = first case, results appended as JSON lines
+func c01ConcChild(jobFile string) error {
+	b, err := os.ReadFile(jobFile)
+	if err != nil {
+		return err
+	}
+	var job c01ConcJob
+	if err := json.Unmarshal(b, &job); err != nil {
+		return err
+	}
+	start := 0
+	fmt.Sscan(os.Getenv("C01_CONC_START"), &start)
+	out, err := os.OpenFile(jobFile+".out", os.O_APPEND|os.O_CREATE|os.O_WRONLY, 0o644)
+	if err != nil {
+		return err
+	}
+	defer out.Close()
+	for i := start; i < len(job.Cases); i++ {
+		o := c01ConcOne(job.Cases[i], i, job.MatchIter, job.Copies)
+		line, _ := json.Marshal(o)
+		out.Write(append(line, '\n'))
+		out.Sync()
+	}
+	return nil
+}
+
+// parent: run the job in child processes, restart after a crashed case
+func c01RunConc(c *Ctx, cases []c01Case) {
+	if len(cases) == 0 {
+		return
+	}
+	job := c01ConcJob{cases, c.Pick(4000, 20000), c.Pick(50, 200)}
+	jobFile := filepath.Join(c.Out, "conc_job.json")
+	b, _ := json.Marshal(job)
+	os.WriteFile(jobFile, b, 0o644)
+	os.Remove(jobFile + ".out")
+	results := map[int]c01ConcObs{}
+	readResults := func() {
+		f, err := os.Open(jobFile + ".out")
+		if err != nil {
+			return
+		}
+		defer f.Close()
+		sc := bufio.NewScanner(f)
+		sc.Buffer(make([]byte, 1<<20), 1<<26)
+		for sc.Scan() {
+			var o c01ConcObs
+			if json.Unmarshal(sc.Bytes(), &o) == nil {
+				results[o.Idx] = o
+			}
+		}
+	}
+	start := 0
+	for start < len(cases) {
+		ctx, cancel := context.WithTimeout(context.Background(), time.Duration(c.Pick(300, 1500))*time.Second)
+		cmd := exec.CommandContext(ctx, os.Args[0], "C01", "-tier", c.Tier, "-seed", fmt.Sprint(c.Seed), "-out", filepath.Join(c.Out, "conc_child"))
+		cmd.Env = append(os.Environ(), "C01_CONC_CHILD="+jobFile, fmt.Sprintf("C01_CONC_START=%d", start))
+		outb, err := cmd.CombinedOutput()
+		timedOut := ctx.Err() != nil
+		cancel()
+		readResults()
+		done := start
+		for {
+			if _, ok := results[done]; !ok {
+				break
+			}
+			done++
+		}
+		if err == nil && done >= len(cases) {
+			break
+		}
+		if done >= len(cases) {
+			break
+		}
+		// the child ended while running case `done`
+		msg := string(outb)
+		class := "the child process ended abnormally"
+		if i := strings.Index(msg, "fatal error:"); i >= 0 {
+			class = strings.SplitN(msg[i:], "\n", 2)[0]
+		} else if i := strings.Index(msg, "panic:"); i >= 0 {
+			class = c01Class(strings.SplitN(msg[i:], "\n", 2)[0])
+		}
+		if timedOut {
+			c.Violate("nontermination", "the concurrent run of the case did not finish", cases[done])
+		} else {
+			c.Violate("crash-concurrent", "concurrent Match / AddEvent brought the process down: "+class, cases[done])
+		}
+		start = done + 1
+	}
+	for i, d := range cases {
+		o, ok := results[i]
+		if !ok {
+			continue
+		}
+		c.Dist["concurrent_cases"]++
+		c.Dist["concurrent_match_calls"] += o.MatchCalls
+		c.Dist["concurrent_events_added"] += o.Fired
+		c.Dist["concurrent_processor_hangs_retried"] += o.Hangs
+		if o.Status != "ok" {
+			c.Dist["concurrent_not_comparable_"+o.Status]++
+			if o.Status == "seqfail" {
+				continue
+			}
+		}
+		if o.MatchDiff != nil {
+			c.Violate("match-mismatch-concurrent", fmt.Sprintf("RuleIndex.Match called from 8 goroutines on one index returned, for event #%d of the history, rules %v instead of %v as it does sequentially (%d of %d calls differ)",
+				o.MatchDiff.Event, o.MatchDiff.Got, o.MatchDiff.Want, o.MatchDiffs, o.MatchCalls), d)
+		}
+		if len(o.Variants) != len(d.Hist) || len(d.Hist) == 0 {
+			continue
+		}
+		// sequential index-level observations for the same case (Match / IsTriggering columns)
+		seq, sok := c01ObserveIndex(c, d)
+		if !sok {
+			continue
+		}
+		nv := 1
+		for _, vs := range o.Variants {
+			if len(vs) > nv {
+				nv = len(vs)
+			}
+			if len(vs) == 0 {
+				nv = 0
+				break
+			}
+		}
+		if nv == 0 {
+			continue
+		}
+		if nv > 1 {
+			c.Dist["concurrent_cases_with_diverging_copies"]++
+		}
+		var al, fl, rules, hist []string
+		for v := 0; v < nv; v++ {
+			var added []bool
+			var fired [][]int
+			for _, vs := range o.Variants {
+				x := vs[0]
+				if v < len(vs) {
+					x = vs[v]
+				}
+				added = append(added, x.Added)
+				fired = append(fired, x.Fired)
+			}
+			al = append(al, c01Bools(added))
+			fl = append(fl, c01IntLists(fired))
+		}
+		for _, r := range d.Rules {
+			rules = append(rules, c01CoqRule(r))
+		}
+		for _, e := range d.Hist {
+			hist = append(hist, c01CoqEvent(e))
+		}
+		id := c.NewID()
+		term := fmt.Sprintf("mkCase %d [%s] %s [%s] %s %s [%s] [%s] true", id, strings.Join(rules, ";"), c01RxTable(d),
+			strings.Join(hist, ";"), c01IntLists(seq.Match), c01Bools(seq.Trig), strings.Join(al, ";"), strings.Join(fl, ";"))
+		dd := d
+		if !c01IsConc(dd) {
+			dd.Stream = "concurrent-" + dd.Stream
+		}
+		kb, _ := json.Marshal(dd)
+		c.AddCase(id, term, dd, "conc:"+string(kb), true)
+	}
+}
+
+// c01ConcShapes: k wildcard rules on one pattern (k = 1..7: rule slices with and without spare
+// capacity) followed by exact and state rules, events of mixed kinds
+func c01ConcShapes() []c01Case {
+	var cs []c01Case
+	for _, prefix := range []string{"c.", ""} {
+		for k := 1; k <= 7; k++ {
+			var rules []c01Rule
+			n := 0
+			for i := 0; i < k; i++ {
+				n++
+				rules = append(rules, c01Rl(n, []string{prefix + "*"}, nil, false))
+			}
+			for _, leaf := range []string{"a", "b", "c", "x"} {
+				n++
+				rules = append(rules, c01Rl(n, []string{prefix + leaf}, nil, false))
+			}
+			n++
+			rules = append(rules, c01Rl(n, []string{prefix + "a"}, []c01KV{{1, c01Num(1)}}, true))
+			n++
+			sup := c01Rl(n, []string{prefix + "b", prefix + "*"}, []c01KV{{1, c01Null()}}, true)
+			sup.Suppress = []int{1}
+			sup.Prio = 2
+			rules = append(rules, sup)
+			var hist []c01Event
+			seg := func(s string) string { return prefix + s }
+			for i, leaf := range []string{"a", "b", "c", "x", "y"} {
+				hist = append(hist, c01Ev(1+i%2, seg(leaf), c01AllowAll))
+			}
+			hist = append(hist, c01Ev(1, seg("a"), c01AllowAll, c01KV{1, c01Num(1)}), c01Ev(2, seg("b"), c01AllowAll, c01KV{1, c01Num(2)}),
+				c01Ev(1, "zz", c01AllowAll))
+			cs = append(cs, c01Case{Stream: "concurrent-shapes", Rules: rules, Hist: hist})
+		}
+	}
+	return cs
+}
+
+// a case of the concurrent stream is recognised by its stream name (replays)
+func c01IsConc(d c01Case) bool { return strings.HasPrefix(d.Stream, "concurrent") }
+
+// c01ObserveIndex: the index-level part of c01Observe only
+func c01ObserveIndex(c *Ctx, d c01Case) (c01Obs, bool) {
+	var obs c01Obs
+	idx := engine.NewRuleIndex()
+	for _, r := range d.Rules {
+		gr := c01GoRule(r, nil)
+		res := guarded(5*time.Second, func() (interface{}, error) { return nil, idx.AddRule(gr) })
+		if res.TimedOut || res.Panicked || res.Err != nil {
+			return obs, false
+		}
+	}
+	for _, e := range d.Hist {
+		ge := c01GoEvent(e)
+		res := guarded(3*time.Second, func() (interface{}, error) { return c01Names(idx.Match(ge)), nil })
+		if res.TimedOut || res.Panicked {
+			return obs, false
+		}
+		obs.Match = append(obs.Match, res.Val.([]int))
+		res = guarded(3*time.Second, func() (interface{}, error) { return idx.IsTriggering(ge), nil })
+		if res.TimedOut || res.Panicked {
+			return obs, false
+		}
+		obs.Trig = append(obs.Trig, res.Val.(bool))
+	}
+	return obs, true
 }
 
 // ---- generators -----------------------------------------------------------------------
@@ -862,7 +1289,10 @@ func c01RandomCase(c *Ctx) c01Case {
 }
 
 func runC01(c *Ctx) error {
-	c.Rule = "rule sets x event histories. corpus: the witnesses of the repaired defects (shared event name, two patterns of one rule, 64/65 state rules on one pattern, list/map values) and tricky inputs (NULL, missing key, nil value, regexes, empty state map, empty kind, scope prefixes, suppression chains); exhaustive-1: every single rule with 1-2 kind patterns of depth <=2 over {a,*} and every state requirement over 2 keys x {absent,NULL,1} (210 rules) against all 54 events (kinds of depth <=2 over {a,b}, 2 keys x {absent,1,2}); exhaustive-2 (and -3 in the thorough tier): all ordered pairs (quick tier: one of two suppression/scope variants per pair; thorough: both, plus a third of all triples) of 24 small rule shapes, with and without suppression + scope, against 12 events under two scopes; many-state-rules: 60-70 state rules on one kind pattern; random: 1-6 rules, 1-3 patterns of depth 1-3 over {a,b,c,*,''}, state over {NULL,number,string,bool,regex,list,map}, scopes, suppression lists, priorities, histories of 3-8 events with shared names, every event under its own scope definitions; each history with 1, 2 and 8 workers; non-trivial = some event of the history is matched by some rule; distinct by the whole case"
+	if f := os.Getenv("C01_CONC_CHILD"); f != "" {
+		return c01ConcChild(f)
+	}
+	c.Rule = "concurrent: rule sets with k = 1..7 wildcard rules on one pattern followed by exact / state / suppressing rules, and random rule sets, each with RuleIndex.Match called from 8 goroutines on one index (every result against the sequential one) and with 4, 8 and 16 workers while every event of the history is added many times from 4 goroutines without waiting (per event every distinct observed outcome is compared with Spec.fires); sequential: " + "rule sets x event histories. corpus: the witnesses of the repaired defects (shared event name, two patterns of one rule, 64/65 state rules on one pattern, list/map values) and tricky inputs (NULL, missing key, nil value, regexes, empty state map, empty kind, scope prefixes, suppression chains); exhaustive-1: every single rule with 1-2 kind patterns of depth <=2 over {a,*} and every state requirement over 2 keys x {absent,NULL,1} (210 rules) against all 54 events (kinds of depth <=2 over {a,b}, 2 keys x {absent,1,2}); exhaustive-2 (and -3 in the thorough tier): all ordered pairs (quick tier: one of two suppression/scope variants per pair; thorough: both, plus a third of all triples) of 24 small rule shapes, with and without suppression + scope, against 12 events under two scopes; many-state-rules: 60-70 state rules on one kind pattern; random: 1-6 rules, 1-3 patterns of depth 1-3 over {a,b,c,*,''}, state over {NULL,number,string,bool,regex,list,map}, scopes, suppression lists, priorities, histories of 3-8 events with shared names, every event under its own scope definitions; each history with 1, 2 and 8 workers; non-trivial = some event of the history is matched by some rule; distinct by the whole case"
 
 	// shared event universes of the exhaustive streams
 	kv := func(k, n int) c01KV { return c01KV{k, c01Num(n)} }
@@ -913,6 +1343,9 @@ func runC01(c *Ctx) error {
 			return err
 		}
 		c01One(c, d, "")
+		if c01IsConc(d) {
+			c01RunConc(c, []c01Case{d})
+		}
 		return nil
 	}
 
@@ -937,6 +1370,24 @@ func runC01(c *Ctx) error {
 		r := c01Rl(1, kinds, nil, false)
 		r.Suppress = []int{1}
 		c01One(c, c01Case{"self-suppress-informational", []c01Rule{r, c01Rl(2, []string{"a"}, nil, false)}, []c01Event{c01Ev(1, "a", c01AllowAll)}}, "")
+	}
+
+	// 1b. concurrent stream (child process)
+	if !stop() {
+		conc := c01ConcShapes()
+		for i := 0; i < c.Pick(10, 120); i++ {
+			d := c01RandomCase(c)
+			d.Stream = "concurrent-random"
+			if !c01SelfSuppress(d) {
+				conc = append(conc, d)
+			}
+		}
+		for _, d := range conc {
+			c01One(c, d, "")
+		}
+		if !stop() {
+			c01RunConc(c, conc)
+		}
 	}
 
 	// 2. many state rules on one kind pattern
